@@ -842,6 +842,11 @@ inline ConnectResult Transport::connectSync(const std::string &host, std::uint16
     // Woken by teardown. Do NOT erase pendingConnects (teardown owns and is
     // iterating the maps, L-NEW-1) and do NOT touch engine->close (engine is
     // being torn down, M-1). The guard decrements activeConnects on return.
+    // The entry stays registered so the shutdown drain's onClose is suppressed;
+    // mark it abandoned so that an onConnect the still-running I/O thread reports
+    // between the fence and engine->stop() cannot consume (erase) it — otherwise
+    // that onClose reaches the GLOBAL callback for a sid this call never returned.
+    op->abandoned = true;
     return ConnectResult::err(
       TransportErrorInfo{TransportError::ShuttingDown, "transport shutting down"});
   }
